@@ -163,13 +163,15 @@ def run_contracts(col, cls, p, g, tag):
     def inverse_derivs():
         rr = np.asarray(tf.transform(xs), dtype=float)
         finv = lambda t: np.asarray(tf.inverse(np.asarray(t, dtype=float)), dtype=float)
-        scale = np.maximum(np.abs(np.gradient(rr)), 1e-3)
+        c0, c1 = tf.codomain
+        lo_c, hi_c = min(c0, c1), max(c0, c1)
+        dist = np.minimum(np.abs(rr - lo_c), np.where(np.isfinite(hi_c), np.abs(hi_c - rr), np.inf))
+        dist = np.minimum(dist, 1.0 + np.abs(rr))
         for order, name in ((1, "deriv_inverse"), (2, "deriv2_inverse"), (3, "deriv3_inverse")):
             got = np.asarray(getattr(tf, name)(rr), dtype=float)
-            hh = 1e-3 * np.minimum(scale, 1.0)
+            hh = {1: 1e-3, 2: 4e-3, 3: 1.5e-2}[order] * dist          # step relative to the distance from the nearest codomain end
             ref = np.array([richardson(finv, np.array([ri]), order, hi)[0] for ri, hi in zip(rr, hh)])
-            tol = 2e-2 * (np.abs(ref) + np.abs(got)) + 400 * EPS * (np.abs(xs) + 1.0) / (hh / 2) ** order + 1e-10
-            # cross-check through the generic formula's own ingredients evaluated natively
+            tol = 2e-2 * (np.abs(ref) + np.abs(got)) + 4000 * EPS * (np.abs(xs) + 1.0) / (hh / 2) ** order + 1e-10
             err = np.abs(got - ref) - tol
             if np.any(err > 0):
                 i = int(np.argmax(err))
